@@ -1,9 +1,12 @@
 package c20
 
 import (
+	"crypto/sha256"
+	"encoding/hex"
 	"encoding/json"
 	"fmt"
 	"os"
+	"path/filepath"
 	"runtime"
 	"sort"
 	"strconv"
@@ -270,11 +273,30 @@ func run(tier string) int {
 		"counters":    extra,
 		"explanation": "every transition is executed on a controller-runtime fake store: reconcile/deploy transitions run the real PodGroupReconciler.Reconcile / QueueReconciler.Reconcile / DeployableOperands.Deploy, environment transitions write through the same store; every distinct state is additionally driven to a fixpoint by real reconciles and judged by reference sums. A reconcile from a store state byte-identical to one already executed in the same worker is served from a memo (real_controller_executions counts the executions actually performed; 1 in 97 is re-executed on a fresh store and compared = determinism_replays)",
 	}
-	known := rep.KnownHits()
-	if len(known) > 0 {
-		cov["known_finding_hits"] = known
+	if kh := rep.KnownHits(); len(kh) > 0 {
+		cov["known_finding_hits"] = kh
 	}
 	cov["violation_keys"] = keys
+	// engine.Reporter writes replay files for the first five keys only; write one for every key
+	// (same naming scheme), so that each distinct finding can be re-executed.
+	known := engine.LoadKnownFindings()
+	rdir := filepath.Join(engine.OutDir(), "evidence", "replays")
+	_ = os.MkdirAll(rdir, 0o755)
+	for _, k := range keys {
+		isKnown := false
+		for _, kf := range known {
+			if kf.Property == "C20" && kf.Status == "open" && strings.Contains(k, kf.Match) {
+				isKnown = true
+			}
+		}
+		h := sha256.Sum256([]byte(k))
+		name := fmt.Sprintf("C20-%s.json", hex.EncodeToString(h[:6]))
+		if isKnown {
+			name = "C20-known-" + hex.EncodeToString(h[:6]) + ".json"
+		}
+		b, _ := json.MarshalIndent(best[k], "", " ")
+		_ = os.WriteFile(filepath.Join(rdir, name), b, 0o644)
+	}
 	code := rep.Finish()
 	ev := &engine.Evidence{PropertyID: "C20", Tier: tier, Seed: engine.SeedFromEnv(), Level: "model_checking", Coverage: cov,
 		Assumptions: assumptions, WallS: time.Since(start).Seconds(), Violations: rep.NewCount()}
